@@ -18,6 +18,7 @@ git apply patch.diff
 echo "suite_with_change_exit=$S1 demo_with_change_exit=$D1 demo_without_change_exit=$D0"
 if [ $S1 -ne 0 ] || [ $D1 -eq 0 ] || [ $D0 -ne 0 ]; then echo "MUTANT NOT VALID"; fi
 cd /verif
+export VERIF_EVIDENCE_DIR=/verif/.work/mutant-evidence
 git -C /repo apply $WT/patch.diff || { echo "patch does not apply to /repo"; exit 9; }
 for p in "$@"; do
   bin/check $p --tier quick > $OUT/check_$p.log 2>&1; echo "check $p exit=$? : $(grep -c '^VIOLATION' $OUT/check_$p.log) violation lines; $(tail -1 $OUT/check_$p.log | cut -c1-200)"
